@@ -267,3 +267,28 @@ def ops_of(s, acc=None):
                 if isinstance(y, tuple):
                     ops_of(y, acc)
     return acc
+
+
+# ---------------------------------------------------------------- text (mirror of MoSql.E.render)
+def op_text(gen_ops):
+    return {o["key"]: (o["text"], o["text2"]) for o in gen_ops}
+
+
+def render(e, texts):
+    t = e[0]
+    if t == "atom":
+        return e[1]
+    if t == "paren":
+        return "( " + render(e[1], texts) + " )"
+    if t == "call":
+        return e[1] + " ( " + ", ".join(render(a, texts) for a in e[2]) + " )"
+    if t == "pre":
+        return texts[e[1]][0] + " " + render(e[2], texts)
+    if t == "cast":
+        return render(e[1], texts) + " " + texts["::"][0] + " " + e[2]
+    if t == "bin":
+        return render(e[2], texts) + " " + texts[e[1]][0] + " " + render(e[3], texts)
+    if t == "tern":
+        a, b = texts[e[1]]
+        return render(e[2], texts) + " " + a + " " + render(e[3], texts) + " " + b + " " + render(e[4], texts)
+    raise ValueError(e)
